@@ -147,6 +147,7 @@ def static_regex_text(ctx, name):
                 for f in fn:
                     if f.endswith('.rs'):
                         t = open(os.path.join(dp, f), encoding='utf-8', errors='replace').read()
+                        t = re.sub(r'(?m)^\s*//[^\n]*\n', '', t)         # whole-line comments between the pieces of the definition
                         m = re.search(r'static\s+' + re.escape(short) + r'\s*:\s*LazyLock<\s*Regex\s*>\s*=\s*LazyLock::new\(\|\|\s*\{?\s*Regex::new\(\s*(r#*)?"((?:[^"\\]|\\.)*)"', t, re.S)
                         if m:
                             raw = m.group(2)
@@ -210,3 +211,19 @@ def m_match_as_str(ctx, args, callee):
     if not (isinstance(m_, tuple) and m_[0] == 'pymatch'):
         raise Unmodelled('Match::as_str on %r' % (m_,))
     return Str(m_[1])
+
+
+@model(r'^regex::Captures::name$', 'regex:Captures::name')
+def m_cap_name(ctx, args, callee):
+    c = ctx.deref(args[0])
+    if not (isinstance(c, tuple) and c[0] == 'pycap'):
+        raise Unmodelled('Captures::name on %r' % (c,))
+    n = as_str(ctx, args[1]).s
+    try:
+        g = c[1].group(n)
+    except (IndexError, error_t):
+        return none()
+    return none() if g is None else some(('pymatch', g))
+
+
+error_t = re.error
